@@ -191,8 +191,39 @@ func main() {
 			}
 			tagNote = fmt.Sprintf("rpctest configuration: %d obligations, %d not discharged", len(c2.Obls), extra)
 		}
+		// third build configuration: the wasm client's target platform
+		wasmNote := ""
+		if w3, err := LoadWorld(*repo, nil, "env:GOOS=js GOARCH=wasm"); err != nil {
+			wasmNote = "js/wasm configuration does not load: " + err.Error()
+			c.fail("BUILD-TAG", "js/wasm", 0, wasmNote)
+		} else {
+			c3 := newChecker(w3, *prop, *tier)
+			func() {
+				defer func() {
+					if r := recover(); r != nil {
+						c3.fail("CHECKER-PANIC", fmt.Sprint(r), 0, "the checker panicked on the js/wasm configuration")
+					}
+				}()
+				pr.run(c3)
+			}()
+			c3.applyFloors()
+			extra := 0
+			have := map[string]bool{}
+			for _, o := range c.Obls {
+				if o.Verdict != vOK {
+					have[o.Rule+"|"+o.Key] = true
+				}
+			}
+			for _, o := range c3.Obls {
+				if o.Verdict != vOK && !have[o.Rule+"|"+o.Key] {
+					extra++
+					c.add(o.Rule, o.Key, 0, o.Verdict, "[GOOS=js GOARCH=wasm] "+o.Detail+" @"+o.Pos)
+				}
+			}
+			wasmNote = fmt.Sprintf("GOOS=js GOARCH=wasm configuration: %d obligations, %d not discharged", len(c3.Obls), extra)
+		}
 		meta.extra = thoroughExtras(*repo, *verif, *prop, c)
-		meta.extra["build_configurations"] = []string{"default tags (amd64)", tagNote}
+		meta.extra["build_configurations"] = []string{"default tags (linux/amd64)", tagNote, wasmNote}
 	}
 	if *verbose {
 		for _, o := range c.Obls {
